@@ -8,6 +8,8 @@ import (
 	"sort"
 	"strings"
 	"sync"
+
+	"pgregory.net/rapid"
 )
 
 // Pool is a deterministic pool of identifiers (peer ids or multihashes, both
@@ -106,4 +108,28 @@ func CPL(a, b [32]byte) int {
 		}
 	}
 	return 256
+}
+
+// Mix64 is a bijective mixing function (splitmix64 finaliser). Generators index
+// through it when they need an even spread: rapid's integer generators favour
+// small values and range boundaries, which is what shrinking wants but not what
+// "one case in six" or "a uniformly chosen member" means.
+func Mix64(u uint64) uint64 {
+	u ^= u >> 33
+	u *= 0xff51afd7ed558ccd
+	u ^= u >> 33
+	u *= 0xc4ceb9fe1a85ec53
+	u ^= u >> 33
+	return u
+}
+
+// Chance draws a biased coin that comes up true in about percent cases out of
+// 100, independent of rapid's preference for small numbers (a drawn 0, what
+// shrinking converges to, means false).
+func Chance(t *rapid.T, label string, percent int) bool {
+	u := rapid.Uint64().Draw(t, label)
+	if u == 0 {
+		return false
+	}
+	return Mix64(u)%100 < uint64(percent)
 }
